@@ -186,6 +186,16 @@ def register_t1b(J):
                            "copies of THOSE texts; an absent value stays absent); every text the copy points to was allocated "
                            "by this call and the four are different objects (releasing a merge result cannot touch an input); "
                            "its section name is interned in the DESTINATION object; frame: nothing of either object is written."))
+    J.append(Job("grouplistset", ["C11"], "harness/grouplistset.c", sources=["lib/helpers.c"], stubs=["stubs/strdup_log.c"],
+                 contracts=["contracts/grouplistset.h"], enforce="setGroupList", replace=["getFromGroupList", "realloc"],
+                 unwind=16, tier="T1", timeout=300, mem_gb=4,
+                 expect=[r"setGroupList\.postcondition", r"getFromGroupList\.precondition"],
+                 model="abstract strdup with a ghost log; realloc replaced by its contract (fresh object of the requested size)",
+                 trusted=["realloc carries the old list contents over (its own guarantee; bounded in api.*)"],
+                 statement="C11 (section list, any length): setGroupList asks the list first with the caller's name; a known "
+                           "name is handed out as the interned text and nothing changes; a new name grows the list by exactly "
+                           "one slot whose text is a private copy of the caller's name, followed by the terminator, and that "
+                           "copy is handed out; only group_count/groups are written."))
     J.append(Job("initialize", ["C20", "C11"], "harness/setkey.c", sources=["lib/helpers.c"], stubs=["stubs/strdup_abstract.c"],
                  contracts=["contracts/setkey.h"], enforce="initialize", replace=["setGroupList"], unwind=8, tier="T1",
                  defines=["-DPART_INITIALIZE=1"], timeout=900, mem_gb=6, expect=[r"initialize\.postcondition"],
